@@ -57,6 +57,7 @@ def main():
     ap.add_argument("--no-suite", action="store_true")
     ap.add_argument("--tier", default="quick")
     ap.add_argument("--check-only", action="store_true", help="skip confirmation steps 2-3 (already stored)")
+    ap.add_argument("--no-check", action="store_true", help="only confirm and store the mutant")
     ap.add_argument("--props", default=None, help="comma list of properties to run (default: pid)")
     a = ap.parse_args()
     name = a.name or os.path.basename(os.path.normpath(a.dir))
@@ -136,7 +137,7 @@ def main():
             sh("git apply %s" % patch, cwd=wt)
         # run the checks
         det = {}
-        for pid in (a.props.split(",") if a.props else [a.pid]):
+        for pid in ([] if a.no_check else (a.props.split(",") if a.props else [a.pid])):
             t = time.time()
             env = dict(os.environ, VERIF_REPO=wt, VERIF_TIER=a.tier)
             rc, out = sh("tools/check %s --tier %s" % (pid, a.tier), cwd=VERIF, env=env, timeout=3600)
